@@ -24,4 +24,6 @@ def check(run, tier):
 
 
 def replay(run, rp):
-    replay_programs(run, rp)
+    from ._twin import replay_any
+
+    replay_any(run, rp)
